@@ -13,7 +13,8 @@ CHECKS = {
  "C07": ("other", "HIR constant tables of the JSON writer/reader", "§4 C07", "Mandatory RFC 8259 escapes, kind-specific escapes, decimals kept as text, insertion-ordered map type. Round-trip equality itself is value-level."),
  "C08": ("other", "HIR variant-pair tables + contradiction rule + mono who-may-call", "§4 C08", "Ord/PartialEq/Hash of Val and Num are mutually consistent tables; float hash normalises what float compare merges; sorting of values is stable."),
  "C09": ("other", "taint dataflow on MIR + HIR result-kind tables", "§4 C09", "Machine-integer arithmetic on value payloads is checked with big-integer fallback; result-kind tables of the operators; representation independence of integer consumers."),
- "C13": ("other", "HIR constant tables", "§4 C13", "HTML entity table aligned and used swapped for decoding, @sh quoting constant, @csv/@tsv bound to the checked row writers."),
+ "C10": ("other", "HIR sibling agreement (readers/updaters, decoders, look-ups) + who-may-call on order-perturbing map operations", "§4 C10 / §9.5", "Clause only: readers and updaters of a container kind position through the same helper, text strings count with one character decoder, `.[k]`/`has`/destructuring share one look-up, key order is disturbed only by the deleting update. Clipping, negative bounds and splice contents are value-level and not decided."),
+ "C13": ("other", "HIR constant tables + one-decoder rule", "§4 C13", "HTML entity table aligned and used swapped for decoding, @sh quoting constant, @csv/@tsv bound to the checked row writers."),
  "C14": ("other", "HIR reader/writer table agreement", "§4 C14", "First-party reader and writer tables agree (TSV/CSV escapes inverse, CBOR kinds, XML keys, YAML special literals). Full round trips are value-level."),
  "C15": ("other", "HIR decision tables with constant folding", "§4 C15", "Precedence chain, associativity, token table, `as` right-extension, climbing comparisons equal the manual's table."),
  "C16": ("other", "CFG dominance / control dependence / value flow on MIR", "§4 C16", "Cycle guard, load-once guard, absolute-path refusal, search order, extension rule, expand-then-join, one look-up for modules and data, per-module visibility reset."),
@@ -24,7 +25,6 @@ CHECKS = {
 }
 NA = {
  "C01": "equality of output sequences for all programs x inputs against a definitional semantics is functional correctness of compiler+interpreter; no necessary structural clause in reach that is also robust (binder bookkeeping is a relation between two recursive traversals with symbolic lengths)",
- "C10": "clipping, negative indices, character boundaries and splice results are relations over run-time (container, bound, bound, replacement) values; the only static facts are recorded as reviewed panic-inventory reasons under C05",
  "C11": "each obligation equates two run-time output sequences for all argument streams and counts; off-by-one in limit/skip/range is invisible to shape rules",
  "C12": "partition/stability/extremum/round-trip invariants are relations over all input collections; the single shape fact (stable sorting by Val's order) is enforced under C08 and not claimed here",
 }
@@ -57,8 +57,8 @@ def main():
             {"name": "jaqlint", "path": "driver/", "serves_properties": sorted(built), "kind_free_text": "rustc_private driver injected with RUSTC_WRAPPER: dumps typed HIR, MIR with resolved callees, item facts and a whole-program monomorphic call graph as JSON"},
             {"name": "MONO", "path": "rules/mono.py", "serves_properties": ["C03", "C06", "C08", "C18", "C19"], "kind_free_text": "reachability over the monomorphic call graph (indirect calls by erased signature, virtual calls by unsizing sites)"},
             {"name": "TAINT", "path": "rules/taint.py", "serves_properties": ["C05", "C09", "C20"], "kind_free_text": "forward taint dataflow on MIR with structural guard recognition"},
-            {"name": "CFG", "path": "rules/mirutil.py", "serves_properties": ["C03", "C04", "C05", "C16", "C17", "C18"], "kind_free_text": "dominance, must-follow, control dependence and value flow on MIR"},
-            {"name": "TABLES", "path": "rules/hirtab.py", "serves_properties": ["C02", "C04", "C07", "C08", "C09", "C13", "C14", "C15", "C17"], "kind_free_text": "finite decision tables from match expressions of the typed HIR (pattern semantics, constant folding)"},
+            {"name": "CFG", "path": "rules/mirutil.py", "serves_properties": ["C03", "C04", "C05", "C10", "C14", "C16", "C17", "C18"], "kind_free_text": "dominance, must-follow, control dependence and value flow on MIR"},
+            {"name": "TABLES", "path": "rules/hirtab.py", "serves_properties": ["C02", "C04", "C07", "C08", "C09", "C10", "C13", "C14", "C15", "C17"], "kind_free_text": "finite decision tables from match expressions of the typed HIR (pattern semantics, constant folding)"},
             {"name": "WITNESS", "path": "witness/", "serves_properties": ["C19"], "kind_free_text": "compile-pass and compile_fail doc-tests decided by the type checker"},
         ],
         "checks": checks,
